@@ -368,8 +368,11 @@ func runWal(res *Result, drv *Driver, seed uint64, n int, tier string, only int)
 	}
 	defer os.RemoveAll(base)
 	res.Rule = "programs of Append/AppendSync/Rotate x maximum file size (0 ... default) x writer buffer size x compression x base directory names (1-4 levels deep; glob classes [0] [a-c] [!x], ? and *, backslashes, spaces/tab/newline, %, unicode and invalid UTF-8, regexp/shell characters, dots, names ending in .wal; plain in one case of five), then every byte-level cut of every file (sampled for long files); " +
+		"n/10 more cases (oracle only) with a writer factory that builds direct-I/O writers (block buffers of 4096 ... 65536 bytes, every compression, every file size limit): Append/AppendSync/Rotate programs, the log replayed after every call as a kill at that instant would leave it and after Close; " +
 		"one evaluation = one model comparison or one oracle evaluation; non-trivial = at least one record appended; distinct = distinct (program, options) strings"
-	for i := 0; i < n; i++ {
+	// cases n .. n+n/10-1: logs whose writer factory builds a direct-I/O writer (walDirectOne; generated from a second
+	// random stream, the cases 0..n-1 are what they were)
+	for i := 0; i < n+n/10; i++ {
 		if only >= 0 && i != only {
 			continue
 		}
@@ -377,6 +380,13 @@ func runWal(res *Result, drv *Driver, seed uint64, n int, tier string, only int)
 		dir := filepath.Join(base, fmt.Sprintf("c%d", i))
 		if err := os.Mkdir(dir, 0o755); err != nil {
 			return err
+		}
+		if i >= n {
+			if err := walDirectOne(res, NewRng(seed^0x646972656374696f, uint64(i)), i, dir, tier); err != nil {
+				return err
+			}
+			_ = os.RemoveAll(dir)
+			continue
 		}
 		if i%150 == 149 {
 			// "any number of rotations": more log files than the process may hold open
@@ -819,5 +829,224 @@ func walManyFiles(res *Result, drv *Driver, r *Rng, idx int, dir string) error {
 		}
 	}
 	res.Cmp(idx, "wal.run(many files)", strings.TrimSpace(got), wantTok+" rpost="+replayStr(recs2, rerr2), cs)
+	return nil
+}
+
+// ---------------------------------------------------------------------------------------------
+// direct-I/O logs (C07, oracle only: the model's writer has no block-aligned mode)
+//
+// The writer factory builds recordio writers with the DirectIO option: records collect in a block-aligned buffer in
+// the process, whole buffers are written, the rest (zero padded) on Close / Rotate.  Such a writer refuses
+// synchronous writes, so AppendSync may well return an error - then nothing is claimed for that record.  What C07
+// says: at every instant (after every call: what is on disk now is what a kill would leave) replay succeeds and
+// delivers a prefix of the appended records that holds every record whose AppendSync returned nil; after Close it
+// delivers every record whose append returned nil (a record whose append returned an error may be there or not).
+
+type walAttempt struct {
+	rec    []byte
+	ok     bool // the call returned nil
+	synced bool // AppendSync
+}
+
+// walMatchAttempts: got is a prefix of the attempted records in order, where records of failed calls may be left out,
+// and everything behind the prefix is not in `must` (must[i]: attempt i has to be delivered)
+func walMatchAttempts(att []walAttempt, must []bool, got [][]byte) bool {
+	memo := map[[2]int]bool{}
+	var rec func(i, j int) bool
+	rec = func(i, j int) bool {
+		if j == len(got) {
+			for ; i < len(att); i++ {
+				if must[i] {
+					return false
+				}
+			}
+			return true
+		}
+		if i == len(att) {
+			return false
+		}
+		k := [2]int{i, j}
+		if v, ok := memo[k]; ok {
+			return v
+		}
+		v := gb(att[i].rec) == gb(got[j]) && rec(i+1, j+1)
+		if !v && !att[i].ok {
+			v = rec(i+1, j)
+		}
+		memo[k] = v
+		return v
+	}
+	return rec(0, 0)
+}
+
+func walDirectOne(res *Result, r *Rng, idx int, base string, tier string) error {
+	res.Cases++
+	res.Stat("direct-io-case")
+	if ok, err := recordio.IsDirectIOAvailable(); err != nil || !ok {
+		res.Stat("direct-io-case:skipped-direct-io-not-available-on-this-file-system")
+		return nil
+	}
+	comp := []int{recordio.CompressionTypeNone, recordio.CompressionTypeSnappy, recordio.CompressionTypeSnappy, recordio.CompressionTypeGZIP, recordio.CompressionTypeLzw}[r.Intn(5)]
+	buf := []int{4096, 4096, 4096, 8192, 65536}[r.Intn(5)]
+	max := walMaxSizes[r.Intn(len(walMaxSizes))]
+	defaultMax := r.Chance(25)
+	if r.Chance(35) {
+		max = uint64([]int{3000, 5000, 9000, 20000}[r.Intn(4)]) // a few blocks per file
+	}
+	n := r.Intn(12)
+	long := r.Chance(45)
+	if long {
+		n = 15 + r.Intn(50) // the block buffer is written several times
+	}
+	if tier == "thorough" && r.Chance(20) {
+		n = 60 + r.Intn(200)
+	}
+	var ops []walOp
+	for i := 0; i < n; i++ {
+		var p []byte
+		switch {
+		case long && r.Chance(75):
+			p = r.Bytes(40 + r.Intn(900))
+		default:
+			p = walPayload(r, []int{buf, buf / 2, 36, 127, 128})
+		}
+		if len(p) >= buf/2 {
+			p = p[:buf/2-1] // a record larger than the block buffer would be written from an unaligned address
+		}
+		switch k := r.Intn(100); {
+		case k < 45:
+			ops = append(ops, walOp{"a", p})
+		case k < 85:
+			ops = append(ops, walOp{"s", p})
+		default:
+			ops = append(ops, walOp{kind: "r"})
+		}
+	}
+	c := &walCase{comp: comp, buf: buf, max: max, defaultMax: defaultMax, ops: ops}
+	cs := "direct-io " + c.String()
+	res.Stat(fmt.Sprintf("direct-io:comp=%d", comp))
+	res.Stat(fmt.Sprintf("direct-io:block-buffer=%d", buf))
+	dir := filepath.Join(base, "log")
+	if err := os.MkdirAll(dir, 0o755); err != nil {
+		return err
+	}
+	wopts := []wal.Option{wal.BasePath(dir), wal.WriterFactory(func(path string) (recordio.WriterI, error) {
+		return recordio.NewFileWriter(recordio.Path(path), recordio.CompressionType(comp), recordio.BufferSizeBytes(buf), recordio.DirectIO())
+	})}
+	if !defaultMax {
+		wopts = append(wopts, wal.MaximumWalFileSizeBytes(max))
+	}
+	opts, err := wal.NewWriteAheadLogOptions(wopts...)
+	if err != nil {
+		return err
+	}
+	var w wal.WriteAheadLogI
+	if err := safely(func() error { var e error; w, e = wal.NewWriteAheadLog(opts); return e }); err != nil {
+		res.Violate(idx, "C07", sigWal(c, "direct-io:new-failed"), err.Error(), cs)
+		return nil
+	}
+	rbuf := []int{0, 64, 512, 4096}[r.Intn(4)]
+	rbufKill := rbuf
+	if rbuf == 0 && len(ops) > 12 {
+		rbufKill = 4096 // the default reader factory allocates 4 MiB per file and replay: long programs use it after Close only
+	}
+	var att []walAttempt
+	// the log as a kill right now would leave it
+	killNow := func(after string) bool {
+		got, rerr := walReplayReal(dir, rbufKill)
+		res.Evaluations++
+		none := make([]bool, len(att))
+		synced := make([]bool, len(att))
+		ns := 0
+		for i, a := range att {
+			synced[i] = a.ok && a.synced
+			if synced[i] {
+				ns++
+			}
+		}
+		switch {
+		case rerr != nil:
+			res.Violate(idx, "C07", sigWal(c, "direct-io:replay-fails-before-close"), fmt.Sprintf("kill after %s: replay of what is on disk failed: %v", after, rerr), cs)
+		case !walMatchAttempts(att, none, got):
+			res.Violate(idx, "C07", sigWal(c, "direct-io:replay-not-a-prefix-before-close"), fmt.Sprintf("kill after %s: replay delivered %s, no prefix of the %d appended records", after, recsPrint(got), len(att)), cs)
+		case !walMatchAttempts(att, synced, got):
+			res.Violate(idx, "C07", sigWal(c, "direct-io:lost-synced-record"), fmt.Sprintf("kill after %s: %d synchronous appends returned nil, replay of what is on disk delivered %d records (%s) which do not hold all of them", after, ns, len(got), recsPrint(got)), cs)
+		default:
+			if len(got) > 0 {
+				res.Stat("direct-io:kill:replay-delivers-records")
+			} else {
+				res.Stat("direct-io:kill:replay-delivers-nothing")
+			}
+			return true
+		}
+		return false
+	}
+	good := killNow("NewWriteAheadLog")
+	for oi, o := range c.ops {
+		if !good {
+			break
+		}
+		var opErr error
+		switch o.kind {
+		case "a":
+			opErr = safely(func() error { return w.Append(o.rec) })
+		case "s":
+			opErr = safely(func() error { return w.AppendSync(o.rec) })
+		case "r":
+			opErr = safely(func() error { _, e := w.Rotate(); return e })
+		}
+		what := map[string]string{"a": "append", "s": "appendSync", "r": "rotate"}[o.kind]
+		switch {
+		case opErr == nil:
+			res.Stat("direct-io:" + what + ":ok")
+		case errors.Is(opErr, recordio.DirectIOSyncWriteErr):
+			res.Stat("direct-io:" + what + ":refused-by-the-direct-io-writer")
+		default:
+			res.Stat("direct-io:" + what + ":err:" + errKind(opErr))
+		}
+		if o.kind == "r" {
+			if opErr != nil {
+				res.Violate(idx, "C07", sigWal(c, "direct-io:rotate-failed"), fmt.Sprintf("op %d: %v", oi, opErr), cs)
+				good = false
+			}
+		} else {
+			if opErr != nil && o.kind == "a" {
+				// an asynchronous append has no reason to fail here
+				res.Violate(idx, "C07", sigWal(c, "direct-io:append-failed"), fmt.Sprintf("op %d: %v", oi, opErr), cs)
+				good = false
+			}
+			att = append(att, walAttempt{rec: o.rec, ok: opErr == nil, synced: o.kind == "s"})
+		}
+		if good {
+			good = killNow(fmt.Sprintf("op %d (%s)", oi, what))
+		}
+	}
+	closeErr := safely(func() error { return w.Close() })
+	if !good {
+		return nil
+	}
+	if closeErr != nil {
+		res.Violate(idx, "C07", sigWal(c, "direct-io:close-failed"), closeErr.Error(), cs)
+		return nil
+	}
+	nOK := 0
+	all := make([]bool, len(att))
+	for i, a := range att {
+		all[i] = a.ok
+		if a.ok {
+			nOK++
+		}
+	}
+	if nOK > 0 {
+		res.NoteNontrivial(cs)
+	}
+	if names, err := walList(dir); err == nil {
+		res.StatN("direct-io:files", len(names))
+	}
+	got, rerr := walReplayReal(dir, rbuf)
+	res.Evaluations++
+	if rerr != nil || !walMatchAttempts(att, all, got) {
+		res.Violate(idx, "C07", sigWal(c, "direct-io:replay-after-close"), fmt.Sprintf("replay of the closed log: want ok and the %d records whose append returned nil; got %s", nOK, replayStr(got, rerr)), cs)
+	}
 	return nil
 }
